@@ -44,6 +44,10 @@ Second(e, kk, r, t) ==
       p == SecondSession(kk, [r |-> r, t |-> t, called |-> live], k2, s.destroyed)
   IN /\ Chk(MaySend(k2), "C12|harness|second-offer-not-sendable", s.k)
      \* an accepted INIT is judged like the first one; whatever INIT is in force bounds the switches
+     \* the second step of the version handshake: after a major mismatch the 7.x INIT is the negotiation proper
+     /\ Chk(~(kk.major = "gt" /\ k2.major = "eq") \/ (r2.status = "ok" /\ s.want.seen /\ ReplyOK(k2, r2, want2) /\ SwitchesOK(r2, t2)),
+            "C12|" \o kk.stack \o "|init-after-major-mismatch|" \o (IF r2.status = "ok" /\ ~s.want.seen THEN "init-params-not-reported" ELSE Why(k2, r2, want2)),
+            <<s.k, s.r, s.want, s.t>>)
      /\ Chk(~live \/ r2.status # "ok" \/ ReplyOK(k2, r2, want2), "C12|" \o kk.stack \o tag \o "reply|" \o Why(k2, r2, want2), <<s.k, s.r, s.want>>)
      /\ Chk(~live \/ SwitchesOK(InForce(r, r2), t2), "C12|" \o kk.stack \o tag \o "switch-on-without-negotiation|" \o WhichSw(InForce(r, r2), t2),
             <<e.k, e.r, s.k, s.r, s.t>>)
